@@ -124,7 +124,9 @@ fn err_matches(e: &StunParseError, causes: &[Cause], n: usize) -> bool {
         // and the size reported as needed must exceed the one available
         (StunParseError::Truncated { expected, actual }, Cause::AttrOverrun) => *actual <= n && *expected > *actual,
         (StunParseError::Truncated { expected, actual }, Cause::FpMalformed) => *actual <= n && *expected > *actual,
-        (StunParseError::TooLarge { .. }, Cause::Excess { .. }) => true,
+        // C02's list of causes has no name for excess bytes: any variant that does not name another,
+        // absent, cause will do
+        (StunParseError::TooLarge { .. } | StunParseError::DataMismatch | StunParseError::InvalidAttributeData | StunParseError::WrongAttributeImplementation, Cause::Excess { .. }) => true,
         (StunParseError::TooLarge { .. }, Cause::FpMalformed) => true,
         (StunParseError::AttributeAfterIntegrity(t), Cause::AfterIntegrity(x)) => t.value() == *x,
         (StunParseError::AttributeAfterFingerprint(t), Cause::AfterFingerprint(x)) => t.value() == *x,
@@ -326,9 +328,18 @@ pub fn receive(ctx: &mut Ctx, buf: &[u8], o: &PipeOpts) -> ScResult {
     // 3. whole message
     let parsed = g("Message::from_bytes", || Message::from_bytes(buf))?;
     // the TryFrom<&[u8]> entry point is the same decoder
+    // the TryFrom<&[u8]> entry point is a parser too: it is judged by C02's rule on its own (no
+    // property says the two entry points must agree — each may make its own choice where C02 leaves
+    // one, i.e. for over-long buffers)
     let via_try = g("Message::try_from", || Message::try_from(buf).is_ok())?;
-    if via_try != parsed.is_ok() && o.oracle {
-        return Err(Violation::new("C02", "entry_points_agree", "Message::try_from", format!("Message::try_from accepts={via_try} but Message::from_bytes accepts={}", parsed.is_ok())));
+    if o.oracle && via_try != parsed.is_ok() {
+        match refcodec::decode(buf) {
+            Verdict::Accept(_) if !via_try => return Err(Violation::new("C02", "accepts_wellformed", "Message::try_from", format!("a well-formed {}-byte message was refused by Message::try_from", buf.len()))),
+            Verdict::Reject(causes) if via_try && !(causes.len() == 1 && matches!(causes[0], Cause::Excess { .. })) => {
+                return Err(Violation::new("C02", "refuses_malformed", "Message::try_from", format!("a malformed {}-byte buffer was accepted by Message::try_from; defects present: {causes:?}", buf.len())));
+            }
+            _ => {}
+        }
     }
     // 4. raw attribute decoder at 4-byte offsets of the body, typed decoders on what it returns
     let tid: TransactionId = crate::agentapi::tid_of(buf).unwrap_or(0).into();
